@@ -75,7 +75,9 @@ type Config struct {
 	Deadline     time.Duration // wall-clock budget for exploration
 	Assumptions  []string
 	Rule         string
-	LeafHook     func(x *Explorer, path []string) // optional: extra exploration at leaves (C13 drain)
+	LeafHook     func(x *Explorer, path []string) // optional: extra exploration at leaves
+	// NodeHook runs extra exploration below a node (must leave the instance at the node's state)
+	NodeHook func(x *Explorer, depth int, path []string, root string, phase int)
 	BlockFailure bool                              // judge block failures (C18)
 	Variants      []string // fixture variants to run (first = default)
 	VariantPhases []Phase  // phases used for the non-default variants (nil = same)
@@ -212,6 +214,12 @@ func (x *Explorer) measures() []Measure {
 }
 
 func nz(s string) bool { return s != "" && s != "0" }
+
+// Record lets hooks report findings.
+func (x *Explorer) Record(f Finding, root string, trace []string, phase int) { x.record(f, root, trace, phase) }
+
+// CountTransition lets hooks account for the blocks they execute.
+func (x *Explorer) CountTransition() { x.res.Transitions++ }
 
 func (x *Explorer) record(f Finding, root string, trace []string, phase int) {
 	sig := f.Sig()
@@ -375,6 +383,9 @@ func (x *Explorer) dfs(ph *Phase, ops []*Op, depth, dev int, path []string, pare
 			if len(x.res.Samples) < 3 && depth+1 == ph.Depth {
 				x.res.Samples = append(x.res.Samples, append([]string{root}, np...))
 			}
+			if x.Cfg.NodeHook != nil {
+				x.Cfg.NodeHook(x, depth+1, np, root, phase)
+			}
 			rem := ph.Depth - depth - 1
 			if rem > 0 {
 				key := w.StateKey() + fmt.Sprintf("/%d", dev+op.Dev)
@@ -479,6 +490,9 @@ func (x *Explorer) RunUnit(u unit, deadline time.Time) (ret *unitResult) {
 			}
 			if x.Cfg.ValidateMod > 0 && len(path) == 1 {
 				x.validate(u.Root, path)
+			}
+			if x.Cfg.NodeHook != nil {
+				x.Cfg.NodeHook(x, len(path), append([]string{}, path...), u.Root, u.Phase)
 			}
 		}
 		parent = ms
